@@ -66,10 +66,14 @@ impl QuakeState {
                     ping: gen::u16_(t),
                     name: {
                         let s = q_str(t, 20, names_with_spaces);
-                        if s.is_empty() && t.draw(DATA, 2) == 0 {
-                            "p".to_string()
-                        } else {
-                            s
+                        let s = if s.is_empty() && t.draw(DATA, 2) == 0 { "p".to_string() } else { s };
+                        // now and then a name with a double quote of its own at an edge (always sent inside
+                        // wrapping quotes, which are the only ones the client may remove)
+                        match t.draw(DATA, 24) {
+                            0 if !s.contains(' ') => format!("\"{s}\""),
+                            1 if !s.contains(' ') => format!("{s}\""),
+                            2 if !s.contains(' ') => format!("\"{s}"),
+                            _ => s,
                         }
                     },
                     quoted: t.draw(DATA, 4) != 0,
@@ -162,7 +166,7 @@ impl QuakeState {
         }
         s.push('\n');
         for p in &self.players {
-            let name = if p.quoted || p.name.contains(' ') || p.name.is_empty() { format!("\"{}\"", p.name) } else { p.name.clone() };
+            let name = if p.quoted || p.name.contains(' ') || p.name.contains('"') || p.name.is_empty() { format!("\"{}\"", p.name) } else { p.name.clone() };
             if self.version == 1 {
                 s.push_str(&format!("{} {} {} {} {} \"{}\" {} {}\n", p.id, p.frags, p.time, p.ping, name, p.skin, p.top, p.bottom));
             } else {
@@ -221,7 +225,16 @@ impl Server for QuakeServer {
         self.attempts += 1;
         match self.outcomes.get(n).copied().unwrap_or(Outcome::Valid) {
             Outcome::Silent => {}
-            Outcome::Malformed => cx.udp_send(from, vec![0xff, 0xff, 0xff, 0xff, b'?', b'?']),
+            Outcome::Malformed => {
+                if cx.draw(2) == 0 {
+                    cx.udp_send(from, vec![0xff, 0xff, 0xff, 0xff, b'?', b'?']);
+                } else {
+                    // the complete valid reply under another response header
+                    let mut d = self.st.encode();
+                    d[4] = if d[4] == b'p' { b'q' } else { b'p' };
+                    cx.udp_send(from, d);
+                }
+            }
             Outcome::Valid => {
                 let d = self.st.encode();
                 cx.udp_send(from, d);
